@@ -18,7 +18,7 @@ PPQ_MPQ = [(480, 500000), (480, 500000), (96, 500000), (960, 250000), (1000, 612
 ORNAMENT_TYPES = ["trill", "mordent", "turn", "grace", "arpeggio", "generic_ornament"]
 FEATURES = ["chords", "ties", "graces", "tuplets", "rests", "multivoice", "multistaff", "pickup", "ts_changes", "keys",
             "articulations", "fermata", "clefs"]
-DIVS = [1, 2, 3, 4, 5, 6, 7, 8, 12, 16, 24, 480, 960]
+DIVS = [1, 2, 3, 4, 5, 6, 7, 8, 12, 16, 24, 480, 960, 14, 21, 35]
 QUARTER_METERS = [(4, 4), (3, 4), (2, 4), (5, 4)]
 OTHER_METERS = [(6, 8), (9, 8), (12, 8), (5, 8), (7, 8), (3, 8), (3, 2), (2, 2)]
 
@@ -179,6 +179,20 @@ def make_case(rng, size="small", klass=None, meters=None, features=None, divs=No
                 part.add(n_, end=new_end)
                 n_.symbolic_duration = None
                 c.unquantised = True
+    if divs in (7, 14, 21, 35) and rng.random() < 0.6:
+        # septuplet grids: a long note that ends on an odd division (a half note tied into part of a septuplet, written as one
+        # duration whose fraction of a whole note has a long odd numerator, e.g. 61/56)
+        import math
+        import partitura.score as S_
+        for n_ in list(part.iter_all(S_.Note)):
+            d_ = n_.end.t - n_.start.t
+            if n_.tie_next is None and n_.tie_prev is None and d_ > 45 and rng.random() < 0.5:
+                cands_ = [x for x in range(41, d_) if math.gcd(x, 4 * divs) == 1]
+                if cands_:
+                    new_end = n_.start.t + rng.choice(cands_)
+                    part.remove(n_, "end")
+                    part.add(n_, end=new_end)
+                    n_.symbolic_duration = None
     if rng.random() < 0.1:
         # the part counts in musical beats (dotted quarters in 6/8): the file still counts beats of the denominator
         part.use_musical_beat()
